@@ -162,6 +162,7 @@ func Generate(family string, seed int64, idx int) Scenario {
 		// C17: Shutdown() racing with every kind of client call, then calls on
 		// instances that have been shut down
 		sc.ShutdownPhase = true
+		sc.P.PersistDelayMs = pick(r, 0, 4, 10)
 		sc.WBarrier, sc.WVerify, sc.WGetConfig, sc.WAnyNode = 10, 10, 5, 40
 		sc.P.BatchApply = r.Intn(2) == 0
 		steps, end := randomSteps(r, sc.P, 6+r.Intn(10), true)
@@ -169,6 +170,10 @@ func Generate(family string, seed int64, idx int) Scenario {
 		for i := 0; i < 2+r.Intn(4); i++ {
 			t += sc.P.HeartbeatMs/2 + r.Intn(4*sc.P.HeartbeatMs)
 			n := r.Intn(sc.P.N())
+			if r.Intn(2) == 0 {
+				// a user snapshot in flight on the server that is being shut down
+				steps = append(steps, Step{At: t + r.Intn(3), Act: "snapshot", N: []int{n}})
+			}
 			steps = append(steps, Step{At: t, Act: "burst", N: []int{1 + r.Intn(6)}}, Step{At: t, Act: "transfer", N: []int{-1}}, Step{At: t + r.Intn(3), Act: "shutdown", N: []int{n}},
 				Step{At: t + sc.P.HeartbeatMs*(1+r.Intn(4)), Act: "restart", N: []int{n}})
 		}
@@ -200,6 +205,25 @@ func Generate(family string, seed int64, idx int) Scenario {
 		p.ApplyDelayMs, p.PersistDelayMs, p.RestoreDelayMs = 0, 0, 0
 		sc.Clients = 0
 		sc.Script = family
+	case "notifyblock":
+		// C18/C01: a newly elected leader is still delivering its leadership notification to a very
+		// slow NotifyCh consumer when a newer leader's heartbeat (fast path) deposes it
+		p := &sc.P
+		p.Voters, p.NonVoters, p.Spares = 3, 0, 0
+		p.PreVoteOff = make([]bool, p.N())
+		if r.Intn(2) == 0 {
+			for i := range p.PreVoteOff {
+				p.PreVoteOff[i] = true
+			}
+		}
+		p.NotifyBuf = 0
+		p.NotifyDelayMs = p.ElectionMs * pick(r, 8, 12, 16)
+		p.NotifyLazy = true
+		p.FastPath = true
+		p.ShutdownOnRemove = false
+		p.RestoreCommitted = false
+		sc.Clients = pick(r, 0, 1)
+		sc.Script = "notifyblock"
 	case "longstale":
 		// C12: the servers that can still talk are a deposed leader with a long uncommitted suffix
 		// and a follower with a shorter log that ends in a newer term; the newer leader stays down
@@ -493,7 +517,20 @@ func genRestore(r *rand.Rand, sc *Scenario) {
 	for i := 0; i < 1+r.Intn(3); i++ {
 		t += p.HeartbeatMs + r.Intn(3*p.HeartbeatMs)
 		sc.Steps = append(sc.Steps, Step{At: t, Act: "burst", N: []int{r.Intn(8)}})
-		switch r.Intn(6) {
+		cutLeader := false
+		kind := r.Intn(8)
+		if kind >= 4 && kind <= 6 {
+			kind = 4
+			// needs other voters to carry on, and bites hardest on a store that is emptied by the restore
+			if p.Voters < 3 {
+				p.Voters = 3
+				p.PreVoteOff = make([]bool, p.N())
+			}
+			if r.Intn(3) > 0 {
+				p.Flavor = Flavor{Monotonic: true, Strict: r.Intn(2) == 0}
+			}
+		}
+		switch kind {
 		case 0:
 			sc.Steps = append(sc.Steps, Step{At: t + 1, Act: "isolate", N: []int{r.Intn(p.N())}})
 		case 1:
@@ -502,6 +539,20 @@ func genRestore(r *rand.Rand, sc *Scenario) {
 			sc.Steps = append(sc.Steps, Step{At: t + 1, Act: "member", S: pick(r, "addvoter", "addnonvoter", "demote", "remove"), N: []int{r.Intn(p.N())}})
 		case 3:
 			sc.Steps = append(sc.Steps, Step{At: t + 1, Act: "transfer", N: []int{-1}})
+		case 4:
+			cutLeader = true
+			// the leader is cut off and keeps appending: when the next leader restores, the index it
+			// burns lies inside the old leader's uncommitted suffix
+			sc.Steps = append(sc.Steps, Step{At: t + 1, Act: "lease-cut", V: []float64{0}})
+			for k := 0; k < 6+r.Intn(10); k++ {
+				sc.Steps = append(sc.Steps, Step{At: t + 2, Act: "apply-cut-leader"})
+			}
+			t += 3*p.ElectionMs + p.LeaseMs
+			sc.Steps = append(sc.Steps, Step{At: t, Act: "burst", N: []int{1 + r.Intn(3)}})
+		}
+		variant := r.Intn(5)
+		if cutLeader {
+			variant = r.Intn(3) // the burned index has to fall inside the old leader's stale suffix
 		}
 		rt := t + 2 + r.Intn(3)
 		if r.Intn(3) == 0 {
@@ -510,7 +561,7 @@ func genRestore(r *rand.Rand, sc *Scenario) {
 			sc.Steps = append(sc.Steps, Step{At: rt - r.Intn(2), Act: "member", S: pick(r, "addvoter", "addnonvoter", "demote", "remove"), N: []int{r.Intn(p.N())}})
 		}
 		// writes dispatched in the very instant of the restore are in flight when it is taken up
-		sc.Steps = append(sc.Steps, Step{At: rt, Act: "burst", N: []int{2 + r.Intn(6)}}, Step{At: rt, Act: "restore", V: []float64{float64(r.Intn(5))}}, Step{At: t + 3 + r.Intn(5), Act: "burst", N: []int{r.Intn(5)}})
+		sc.Steps = append(sc.Steps, Step{At: rt, Act: "burst", N: []int{2 + r.Intn(6)}}, Step{At: rt, Act: "restore", V: []float64{float64(variant)}}, Step{At: t + 3 + r.Intn(5), Act: "burst", N: []int{r.Intn(5)}})
 		t += 2*p.HeartbeatMs + r.Intn(3*p.HeartbeatMs)
 		sc.Steps = append(sc.Steps, Step{At: t, Act: "heal"}, Step{At: t + 1, Act: "restartall"})
 	}
